@@ -6,6 +6,34 @@ import os
 V = os.path.dirname(os.path.dirname(os.path.abspath(__file__)))
 
 CHECKS = {
+    "C03": dict(
+        engine="E1-enumerator",
+        category="exploration",
+        text="All command trees (ordered forests, depth <= 3, fan-out <= 3, node kinds {plain, aliased, default, anonymous, hidden, disabled, default+hidden} x two "
+             "argument profiles) with <= 3 nodes, and 4-node trees with <= 2 special nodes (thorough: <= 4 nodes full, 5 restricted), each built as a real "
+             "ConsoleApplication; per tree every spelling of every command path (names/aliases, one unknown word) up to length 4 x {nothing, declared option, "
+             "unknown option, option + word} x {no tail, '--', '--' + word}. Oracle: a 25-line reference resolver written from the statement (longest named "
+             "prefix, first parsable default else first, application default, undefined first token -> CannotResolveCommandException and no handler run), "
+             "compared on selected command, parsed args or exception; metamorphic relations alias-for-name, appended option, appended '--' tail.",
+        design_ref="2/C03",
+        note="Trusted: the reference resolver and capacity-based parsability in props/c03.py. Unasserted where the statement is silent: lines no candidate can "
+             "parse, options the selected command does not declare, '<path> --opt <word>' where the word spells the implicit default.",
+        technique="bounded-exhaustive enumeration of command trees x command lines on the implementation with a reference resolver and metamorphic relations",
+    ),
+    "C09": dict(
+        engine="E1-enumerator",
+        category="exploration",
+        text="Default application config, 3 command trees, 7(+1 rotated) base lines, handler variants {ok, raises, raises library error}; every subset of <= 2 "
+             "(thorough 3) of the 13 switch spellings in every order at every non-decreasing placement over all token boundaries incl. behind '--', plus exactly "
+             "3 (thorough 4) of the 9 short spellings; ArgvArgs and StringArgs; pipe-like and terminal-like streams. Reference computed from the set of switches "
+             "before '--': quiet => both streams empty (also for error reports/help/version); verbosity seen by the handler and marker lines; --no-ansi => no ESC; "
+             "--ansi => markers SGR-wrapped; -n => question returns default, nothing read; help/version pages with status 0 and no handler; tokens behind '--' "
+             "have no effect and arrive as argument values.",
+        design_ref="2/C09",
+        note="Trusted: the reference in props/c09.py. Switches before/inside the command path are judged for quiet and --no-ansi only; '-v' directly before a "
+             "positional is skipped (counted); --ansi together with --no-ansi: ESC presence not asserted.",
+        technique="bounded-exhaustive enumeration of switch subsets, orders and placements on the implementation against a set-based reference",
+    ),
     "C06": dict(
         engine="E2-explicit-state",
         category="model_checking",
